@@ -53,9 +53,11 @@ func c15Content(f string, v int, invalid bool) string {
 	if invalid {
 		return "---\n: [bad\n  yaml: {\n---\n<p>broken " + f + "</p>"
 	}
+	// (an expression whose string literal differs between versions in the amount of white space only)
+	sep := []string{" | ", "  |  ", " |  "}[v%3]
 	switch f {
 	case "page":
-		return fmt.Sprintf("---\nlayout: lay\ntitle: T%d\n---\n<template :title=\"title + '!'\"></template><h1>{{ title }} P%d</h1><template include=\"comp.vuego\"></template><template #side><i>S%d {{ title }}</i></template>", v, v, v)
+		return fmt.Sprintf("---\nlayout: lay\ntitle: T%d\n---\n<template :title=\"title + '!'\"></template><h1>{{ title }} P%d</h1><b :title=\"title + '%s'\">{{ title + '%s' }}</b><template include=\"comp.vuego\"></template><template #side><i>S%d {{ title }}</i></template>", v, v, sep, sep, v)
 	case "comp":
 		return fmt.Sprintf("---\ncv: CV%d\n---\n<b>C%d {{ cv }}</b>", v, v)
 	case "lay":
